@@ -417,6 +417,12 @@ class BaseOdeModel(object):
         else:
             raise InputError("Expecting a list")
 
+        # a state added here comes without declared limits: it gets the
+        # default (0, None), as an undeclared state does at construction
+        if hasattr(self, '_state_lims'):
+            n_missing = len(self._stateList) - len(self._state_lims)
+            self._state_lims = list(self._state_lims) + [(0, None)]*n_missing
+
         self._hasNewTransition.trip()
 
     @property
